@@ -1,3 +1,6 @@
+mod fd;
+mod frames;
+mod fsecodec;
 mod ring;
 mod util;
 
@@ -12,6 +15,8 @@ fn main() {
         "ringexec" => ring::ringexec(rest),
         "ringrand" => ring::ringrand(rest),
         "ringk" => ring::ringk(rest),
+        "fdframes" => fd::fdframes(rest),
+        "fdexec" => fd::fdexec(rest),
         "decbufrand" => ring::decbufrand(rest),
         other => {
             eprintln!("unknown command {other}");
